@@ -38,6 +38,7 @@ func c07EndpointRun(c *core.Ctx, k c07EPCase) {
 		{Name: "u-carol", Password: "pw-carol"},
 		{Name: "shared-a", HashedHex: shared},
 		{Name: "shared-b", HashedHex: shared},
+		{Name: "hashed-c", HashedHex: hex.EncodeToString(wire.HashedPassword("hashed-c", "secret-c"))},
 	}
 	w, err := sim.NewWorld(sim.Config{UDP: k.UDP, Seed: k.Seed, Users: users})
 	if err != nil {
@@ -123,6 +124,55 @@ func c07EndpointRun(c *core.Ctx, k c07EPCase) {
 			c.Violate(key, fmt.Sprintf("session %d was opened by %s (hint names it, its credential authenticates) but the server attributed it to %q", i, users[ui].Name, name), k)
 		}
 	}
+	// --- reload: once SetUsers has returned, retired credentials authenticate nothing new
+	newHashed := hex.EncodeToString(wire.HashedPassword("hashed-c", "rotated-secret-c"))
+	reloaded := []sim.User{
+		{Name: "u-alice", Password: "pw-alice"},     // unchanged
+		{Name: "u-carol", Password: "pw-carol-new"}, // password changed
+		{Name: "shared-a", HashedHex: shared},       // unchanged
+		{Name: "shared-b", HashedHex: shared},       // unchanged
+		{Name: "hashed-c", HashedHex: newHashed},    // only the hashed credential changed
+	} // u-bob removed
+	w.Server.SetServerUsers(sim.PBUsers(reloaded))
+	try := func(cl *protocol.Mux, tag byte, wait time.Duration) bool {
+		ctx, cancel := context.WithTimeout(context.Background(), wait)
+		defer cancel()
+		conn, err := cl.DialContext(ctx)
+		if err != nil {
+			return false
+		}
+		defer conn.Close()
+		conn.Write([]byte{tag})
+		b := make([]byte, 1)
+		conn.SetReadDeadline(time.Now().Add(wait))
+		_, rerr := io.ReadFull(conn, b)
+		return rerr == nil
+	}
+	// retired credentials: u-bob (removed), u-carol's old password, hashed-c's old hash
+	for j, ui := range []int{1, 2, 5} {
+		c.Compared()
+		if try(clients[ui], byte(100+j), 1500*time.Millisecond) {
+			c.Violate("C07/reload/retired-credential-accepted", fmt.Sprintf("after the user list was reloaded, a new connection with the retired credential of %s was still accepted", users[ui].Name), k)
+		}
+	}
+	// current credentials keep working
+	w.Cfg.Users = append(w.Cfg.Users, sim.User{Name: "u-carol", Password: "pw-carol-new"}, sim.User{Name: "hashed-c", HashedHex: newHashed})
+	for j, ui := range []int{0, 4, len(w.Cfg.Users) - 2, len(w.Cfg.Users) - 1} {
+		cl := clients[0]
+		if ui < len(clients) {
+			cl = clients[ui]
+		} else {
+			ncl, err := w.NewClient(ui, nil)
+			if err != nil {
+				continue
+			}
+			cl = ncl
+		}
+		c.Compared()
+		if !try(cl, byte(110+j), 20*time.Second) {
+			c.Violate("C07/reload/current-credential-rejected", fmt.Sprintf("after the reload a connection with the current credential of %s was not accepted", w.Cfg.Users[ui].Name), k)
+		}
+	}
 }
 
 func init() {
@@ -133,7 +183,7 @@ func init() {
 		for i := range cases {
 			k := c07EPCase{Seed: c.Rand.Int63(), UDP: i%2 == 1, EP: true, NAT: i%4 < 2}
 			for j := 0; j < 12; j++ {
-				k.Order = append(k.Order, c.Rand.Intn(5))
+				k.Order = append(k.Order, c.Rand.Intn(6))
 			}
 			// always include: shared-a then shared-b (and back) so the other holder's session exists / is cached
 			k.Order = append(k.Order, 3, 4, 3, 4, 0, 4)
